@@ -86,15 +86,49 @@ def eval_mutant(prop, name, meta, repo, argv, tier='quick'):
         shutil.rmtree(wd, ignore_errors=True)
 
 
+def benign_for(prop):
+    """behaviour-preserving changes written for this property (benign/<prop>-*/patch.diff and benign/<prop>-rename.diff)"""
+    import glob
+    out = sorted(glob.glob(os.path.join(VERIF, 'benign', prop + '-*', 'patch.diff'))) + sorted(glob.glob(os.path.join(VERIF, 'benign', prop + '-*.diff')))
+    return [os.path.relpath(x, VERIF) for x in out]
+
+
+def known_false_alarms():
+    f = os.path.join(VERIF, 'benign', 'KNOWN_FALSE_ALARMS.json')
+    return json.load(open(f)) if os.path.exists(f) else {}
+
+
+def eval_benign(prop, name, repo, argv, tier='quick'):
+    """precision self-test: the rules of the property must stay silent (OK or UNDECIDED) on a behaviour-preserving change"""
+    wd = tempfile.mkdtemp(prefix='tu-selftest-')
+    try:
+        fp, msg = facts_for_tree(repo, os.path.join(VERIF, name), os.path.join(wd, 'w'), argv)
+        if fp is None:
+            return {'benign': name, 'status': 'skipped', 'why': msg}
+        facts = Facts(fp)
+        ctx, ran = engine.run_rules(facts, prop, tier)
+        known, _ = engine.load_known(os.path.join(VERIF, 'known_findings.txt'))
+        bad = [r for r in ctx.results if not r.ok and (prop, r.key.replace(' ', '_')) not in known]
+        return {'benign': name, 'status': 'ALARM' if bad else 'silent', 'fired': sorted({r.rid for r in bad}),
+                'undecided': len(getattr(ctx, 'undecided', [])), 'messages': [r.msg[:200] for r in bad][:4]}
+    finally:
+        shutil.rmtree(wd, ignore_errors=True)
+
+
 def run(prop, repo, facts_path, tier='quick'):
     t0 = time.time()
     argv = json.load(open(facts_path))['argv']
     muts = mutants_for(prop)
+    bens = benign_for(prop)
     res = []
+    bres = []
     with ThreadPoolExecutor(max_workers=8) as ex:
         futs = [ex.submit(eval_mutant, prop, n, m, repo, argv, tier) for n, m in muts]
+        bfuts = [ex.submit(eval_benign, prop, n, repo, argv, tier) for n in bens]
         for f in futs:
             res.append(f.result())
+        for f in bfuts:
+            bres.append(f.result())
     lines = []
     broken = False
     for r in res:
@@ -102,7 +136,21 @@ def run(prop, repo, facts_path, tier='quick'):
             broken = True
         lines.append('SELFTEST mutant=%s status=%s fired=%s' % (r['mutant'], r['status'], ','.join(r.get('fired', []))
                                                                  or r.get('why', '')))
+    kfa = known_false_alarms()
+    imprecise = 0
+    for r in bres:
+        st = r['status']
+        if st == 'ALARM':
+            if os.path.dirname(r['benign']).split('/')[-1] in kfa or r['benign'] in kfa:
+                st = 'known-false-alarm'
+                imprecise += 1
+            else:
+                broken = True
+        lines.append('SELFTEST benign=%s status=%s fired=%s undecided=%s' % (r['benign'], st, ','.join(r.get('fired', [])) or r.get('why', ''), r.get('undecided', 0)))
     return {'mutants': len(muts), 'detected': sum(1 for r in res if r['status'] == 'detected'),
             'skipped': sum(1 for r in res if r['status'] == 'skipped'),
             'missed': sum(1 for r in res if r['status'] == 'MISSED'),
-            'results': res, 'broken': broken, 'lines': lines, 'wall_s': round(time.time() - t0, 1)}
+            'benign': len(bens), 'benign_silent': sum(1 for r in bres if r['status'] == 'silent'),
+            'benign_known_false_alarms': imprecise,
+            'benign_new_false_alarms': sum(1 for r in bres if r['status'] == 'ALARM') - imprecise,
+            'results': res, 'benign_results': bres, 'broken': broken, 'lines': lines, 'wall_s': round(time.time() - t0, 1)}
